@@ -1,0 +1,247 @@
+//go:build verif
+
+// Package vhook provides named hook points used by external verification
+// tooling. With the "verif" build tag, actions can be attached to points via
+// the environment (VERIF_CRASH, VERIF_DELAY, VERIF_ERR, VERIF_TRACE) or
+// in-process via On/OnErr/SetSink.
+package vhook
+
+import (
+	"errors"
+	"fmt"
+	"os"
+	"strconv"
+	"strings"
+	"sync"
+	"sync/atomic"
+	"time"
+)
+
+// Enabled reports whether hooks are compiled in.
+const Enabled = true
+
+// CrashExitCode is the exit status used when a crash action fires.
+const CrashExitCode = 197
+
+type action struct {
+	crashAt int64         // exit the process on this hit number (0 = never)
+	delay   time.Duration // sleep on every hit
+	errAt   int64         // Err returns an error on this hit number (0 = never, -1 = always)
+}
+
+var (
+	mu      sync.RWMutex
+	actions = map[string]*action{}
+	hits    = map[string]*int64{}
+	cbs     = map[string]func(){}
+	errCbs  = map[string]func() error{}
+	sink    atomic.Value // func(name string, arg int64)
+	traceMu sync.Mutex
+	traceF  *os.File
+	anySet  atomic.Bool
+	globalN atomic.Int64
+	crashN  int64 // crash at the N-th hook hit overall (0 = never)
+)
+
+func init() {
+	parse := func(env string, f func(a *action, v string)) {
+		s := os.Getenv(env)
+		if s == "" {
+			return
+		}
+		for _, kv := range strings.Split(s, ",") {
+			name, v, _ := strings.Cut(kv, ":")
+			a := actions[name]
+			if a == nil {
+				a = &action{}
+				actions[name] = a
+			}
+			f(a, v)
+			anySet.Store(true)
+		}
+	}
+	parse("VERIF_CRASH", func(a *action, v string) {
+		n, _ := strconv.ParseInt(v, 10, 64)
+		if n <= 0 {
+			n = 1
+		}
+		a.crashAt = n
+	})
+	parse("VERIF_DELAY", func(a *action, v string) {
+		ms, _ := strconv.ParseFloat(v, 64)
+		a.delay = time.Duration(ms * float64(time.Millisecond))
+	})
+	parse("VERIF_ERR", func(a *action, v string) {
+		n, _ := strconv.ParseInt(v, 10, 64)
+		if n == 0 {
+			n = -1
+		}
+		a.errAt = n
+	})
+	if s := os.Getenv("VERIF_CRASH_N"); s != "" {
+		crashN, _ = strconv.ParseInt(s, 10, 64)
+		anySet.Store(true)
+	}
+	if p := os.Getenv("VERIF_TRACE"); p != "" {
+		f, err := os.OpenFile(p, os.O_CREATE|os.O_WRONLY|os.O_APPEND, 0644)
+		if err == nil {
+			traceF = f
+			anySet.Store(true)
+		}
+	}
+}
+
+func hit(name string) int64 {
+	mu.RLock()
+	p := hits[name]
+	mu.RUnlock()
+	if p == nil {
+		mu.Lock()
+		p = hits[name]
+		if p == nil {
+			p = new(int64)
+			hits[name] = p
+		}
+		mu.Unlock()
+	}
+	return atomic.AddInt64(p, 1)
+}
+
+// Point marks a named point in the code.
+func Point(name string) {
+	if !anySet.Load() {
+		return
+	}
+	n := hit(name)
+	g := globalN.Add(1)
+	if traceF != nil {
+		traceMu.Lock()
+		fmt.Fprintf(traceF, "%d %s %d\n", g, name, n)
+		traceMu.Unlock()
+	}
+	if s, ok := sink.Load().(func(string, int64)); ok && s != nil {
+		s(name, n)
+	}
+	mu.RLock()
+	var a *action
+	if p := actions[name]; p != nil {
+		c := *p
+		a = &c
+	}
+	cb := cbs[name]
+	mu.RUnlock()
+	if cb != nil {
+		cb()
+	}
+	if a != nil {
+		if a.delay > 0 {
+			time.Sleep(a.delay)
+		}
+		if a.crashAt != 0 && n == a.crashAt {
+			crash(name, n)
+		}
+	}
+	if crashN != 0 && g == crashN {
+		crash(name, n)
+	}
+}
+
+func crash(name string, n int64) {
+	if traceF != nil {
+		traceMu.Lock()
+		fmt.Fprintf(traceF, "CRASH %s %d\n", name, n)
+		traceMu.Unlock()
+	}
+	fmt.Fprintf(os.Stderr, "vhook: crash at %s hit %d\n", name, n)
+	os.Exit(CrashExitCode)
+}
+
+// Err returns an injected error for the named point, or nil.
+func Err(name string) error {
+	if !anySet.Load() {
+		return nil
+	}
+	n := hit("err:" + name)
+	mu.RLock()
+	var a *action
+	if p := actions[name]; p != nil {
+		c := *p
+		a = &c
+	}
+	cb := errCbs[name]
+	mu.RUnlock()
+	if cb != nil {
+		if err := cb(); err != nil {
+			return err
+		}
+	}
+	if a != nil && (a.errAt == -1 || (a.errAt != 0 && a.errAt == n)) {
+		return errors.New("vhook: injected error at " + name)
+	}
+	return nil
+}
+
+// Event records a named event with a numeric argument to the sink.
+func Event(name string, arg int64) {
+	if !anySet.Load() {
+		return
+	}
+	if s, ok := sink.Load().(func(string, int64)); ok && s != nil {
+		s(name, arg)
+	}
+}
+
+// On registers fn to run whenever the named point is hit (nil removes it).
+func On(name string, fn func()) {
+	mu.Lock()
+	if fn == nil {
+		delete(cbs, name)
+	} else {
+		cbs[name] = fn
+	}
+	mu.Unlock()
+	anySet.Store(true)
+}
+
+// OnErr registers fn whose non-nil result is returned by Err(name).
+func OnErr(name string, fn func() error) {
+	mu.Lock()
+	if fn == nil {
+		delete(errCbs, name)
+	} else {
+		errCbs[name] = fn
+	}
+	mu.Unlock()
+	anySet.Store(true)
+}
+
+// SetDelay sets a sleep for every hit of the named point.
+func SetDelay(name string, d time.Duration) {
+	mu.Lock()
+	a := actions[name]
+	if a == nil {
+		a = &action{}
+		actions[name] = a
+	}
+	a.delay = d
+	mu.Unlock()
+	anySet.Store(true)
+}
+
+// SetSink installs a receiver for every Point hit (arg = hit number) and every
+// Event. The sink must be safe for concurrent use.
+func SetSink(fn func(name string, arg int64)) {
+	sink.Store(fn)
+	anySet.Store(true)
+}
+
+// Hits returns the number of times the named point was hit.
+func Hits(name string) int64 {
+	mu.RLock()
+	p := hits[name]
+	mu.RUnlock()
+	if p == nil {
+		return 0
+	}
+	return atomic.LoadInt64(p)
+}
